@@ -107,8 +107,22 @@ def setup_get_paths(u):
     return f, [conn, path], {}, {"connection": conn, "path": path}
 
 
+def get_paths_locals(fn):
+    """the local that accumulates the resolved virtual path: the one the fold loop replaces by its own `.parent`"""
+    import ast
+
+    loops = [n for n in ast.walk(fn) if isinstance(n, ast.For)]
+    if len(loops) != 1:
+        raise KeyError("get_paths: expected one for loop")
+    acc = [n.targets[0].id for n in ast.walk(loops[0]) if isinstance(n, ast.Assign) and isinstance(n.targets[0], ast.Name) and isinstance(n.value, ast.Attribute) and n.value.attr == "parent" and isinstance(n.value.value, ast.Name) and n.value.value.id == n.targets[0].id]
+    if len(acc) != 1:
+        raise KeyError("get_paths: accumulator `<x> = <x>.parent` not found")
+    return {"resolved_virtual_path": acc[0]}
+
+
 c = contract(SERVER, "Server.get_paths", props=["C02", "C04"])
 c.setup = setup_get_paths
+c.alias_resolver = get_paths_locals
 c.loop(
     0,
     LoopSpec(
